@@ -9,6 +9,7 @@ import (
 	"sync/atomic"
 	"time"
 
+	"github.com/sdcio/cache/proto/cachepb"
 	"github.com/sdcio/data-server/pkg/cache"
 )
 
@@ -16,6 +17,7 @@ import (
 type Initial struct {
 	Name   string
 	Leaves []Leaf
+	State  []Leaf // leaves preloaded into the STATE store (oper data)
 }
 
 func (i *Initial) Map() map[string]string {
@@ -70,6 +72,7 @@ type E1 struct {
 	Rep      *Reporter
 	Workers  int
 	Deadline time.Time // watchdog: stop expanding after this (exhaustive:false)
+	NoPrune  bool      // extend states reached through violating steps too (for read-only oracles, whose violations have no consequences)
 
 	// statistics
 	States      int64
@@ -106,6 +109,12 @@ func (e *E1) ReplayOn(cc cache.Client, init *Initial, hist []Op, acc []bool) (*W
 	w, err := NewWorld(e.U, cc, init.Leaves, opts)
 	if err != nil {
 		return nil, nil, err
+	}
+	if len(init.State) > 0 {
+		if err := w.PreloadStore(cachepb.Store_STATE, init.State); err != nil {
+			w.Close()
+			return nil, nil, err
+		}
 	}
 	m := NewModel(init.Map())
 	for i, op := range hist {
@@ -244,7 +253,7 @@ func (e *E1) Run() error {
 			if r.probe {
 				continue
 			}
-			if r.violated {
+			if r.violated && !e.NoPrune {
 				// a state reached through a violating step is not extended: everything after it would only
 				// repeat the consequences of the first violation (counterexamples stay minimal)
 				e.PrunedViolating++
